@@ -406,6 +406,15 @@ class FaultModel:
             targets.append(v.args[0])
         elif isinstance(v, ast.Name):
             targets.append(v)
+        if not targets or isinstance(v, ast.Name):
+            # awaiting an object of a repo class that defines __await__ (EventResult, BaseEvent): the coroutine it builds
+            ty = self.prog.infer(v, u) if isinstance(v, (ast.Name, ast.Attribute, ast.Subscript)) else None
+            if ty is not None and ty.kind == 'cls':
+                m = self.prog.method(ty.name, '__await__')
+                if m is not None:
+                    for inner_u in self.prog.nested(m):
+                        if inner_u.is_async:
+                            out |= set(self.escape.get(inner_u.key, frozenset()))
         for t in targets:
             if isinstance(t, ast.Name):
                 for inner in self._task_payloads(t.id, u):
